@@ -82,6 +82,7 @@ theorem cmdWords_flag (ctx : CmdCtx) : ∀ (ws : List Word) (pos : Nat) (cwd : S
   | [], _, _, _ => by simp [flatCmdWords]
   | .mk v ps :: ws, pos, cwd, r => by
     simp [flatCmdWords, cmdParts_flag ctx (.mk v ps) pos ps cwd r, cmdWords_flag ctx ws (pos + 1) cwd r]
+    cases assignSubscript v <;> simp [flagAll, Atom.flagOk]
 
 theorem cmdParts_flag (ctx : CmdCtx) (wd : Word) (pos : Nat) : ∀ (ps : List Part) (cwd : String) (r : Bool),
     flagAll r (flatCmdParts w ctx wd pos ps cwd r) = true
